@@ -85,6 +85,25 @@ def handle : List String → Option String
       | some v => pure ("ok " ++ sFloat v)
       | none => pure "index-error"
     | _ => none
+  | "C15.warns" :: rest => do
+    -- round 3: the generated test of the warning block of `_rearrange_to_explicit_ode` (one point)
+    let (b, tl) ← pVec pFloat rest
+    if tl ≠ [] then none else
+    match rearrangeWarns ([] : List Float) b 0.0 with
+    | some w => pure (if w then "ok 1" else "ok 0")
+    | none => pure "index-error"
+  | "C15.coeffbany" :: rest => do
+    -- round 3: `_transform_ode_from_derivs` for any number of coefficients (Bell loop of the higher orders) and any
+    -- number of derivative functions
+    let (a, rest) ← pVec pFloat rest
+    let (ds, tl) ← pVec pFloat rest
+    if tl ≠ [] then none else
+    pure (optVec (transformOdeFromDerivsAny (consts a) (ds.map fun (d : Float) => fun (_ : Float) => d) 0.0) "index-error")
+  | ["C15.defaults"] =>
+    -- round 3: the defaults of the keyword parameters as generated from the two signatures
+    pure ("ok " ++ (if ivpDefaultNoDerivatives then "1" else "0") ++ " " ++ sFloat (ivpDefaultRtol : Float) ++ " "
+      ++ sFloat (ivpDefaultAtol : Float) ++ " " ++ (if bvpDefaultNoDerivatives then "1" else "0") ++ " "
+      ++ sFloat (bvpDefaultTol : Float) ++ " " ++ toString bvpDefaultMaxNodes ++ " " ++ ivpDefaultMethod)
   | op :: rest =>
     if op == "C15.func" || op == "C15.bfunc" then do
       let (a, rest) ← pVec pFloat rest
@@ -175,7 +194,9 @@ def handle : List String → Option String
         -- are reported through the second run below
         let solve_ivp := fun (_ : Float → List Float → Option (List Float)) (_ _ : List Float) =>
           (⟨status, fun _ => interp⟩ : SolveResult Float)
-        match solveOdeIvp solve_ivp forwardSolve Float.isInf [x0, x1] (fun _ => 0.0) (consts a) y0 tf (nod != 0) with
+        -- `nod = 2`: the keyword is left out by the caller (generated default wrapper)
+        match (if nod == 2 then solveOdeIvpDefault solve_ivp forwardSolve Float.isInf [x0, x1] (fun _ => 0.0) (consts a) y0 tf
+               else solveOdeIvp solve_ivp forwardSolve Float.isInf [x0, x1] (fun _ => 0.0) (consts a) y0 tf (nod != 0)) with
         | .error e => pure (errTag e)
         | .ok F => pure (optVec (F pt) "index-error")
       | _ => none
@@ -199,7 +220,8 @@ def handle : List String → Option String
           let solve_bvp := fun (_ : Float → List Float → Option (List Float))
               (_ : List Float → List Float → Option (List Float)) (_ : List Float) =>
             (⟨status, fun _ => interp⟩ : SolveResult Float)
-          match solveOdeBvp solve_bvp [pt] (fun _ => 0.0) (consts a) bd tf (nod != 0) with
+          match (if nod == 2 then solveOdeBvpDefault solve_bvp [pt] (fun _ => 0.0) (consts a) bd tf
+                 else solveOdeBvp solve_bvp [pt] (fun _ => 0.0) (consts a) bd tf (nod != 0)) with
           | .error e => pure (errTag e)
           | .ok F => pure (optVec (F pt) "index-error")
         | _ => none
